@@ -120,7 +120,12 @@ def cases(draw, fast=True):
     delta = 12.0 / (n - 1)
     steps = draw(st.integers(50, 400))
     lo = 1e-3 if fast else 2e-4
+    # the decrement must dominate the grid's own numerical dissipation per step (grows with the cell size and the rotation
+    # angle per step; calibration scan: n=48 needs e1*steps/100 >= 1e-3, n=64 >= 4e-4, n>=96 fine down to 2e-4)
+    cmin = {48: 1.2e-3, 64: 5e-4}.get(n, 2e-4)
+    lo = max(lo, cmin * 100.0 / steps)
     hi = min(2e-2, 0.35 * delta ** 2)
+    lo = min(lo, hi)
     e1 = float(10 ** draw(st.floats(np.log10(lo), np.log10(hi))))
     fpt = draw(st.sampled_from([3, 3, 3, 3, 1, 2, 0]))
     z = float(draw(st.sampled_from([0.5, 0.6, 0.7, 1.0, 1.4, 1.5, 2.0])) if draw(st.booleans()) else
